@@ -308,6 +308,12 @@ type graphObs struct {
 	overlap            bool // two voters named the same pool
 	partial            bool // some vote with total weight < 1
 	nvotes, ndelegVote int
+	// ghosts, from x/staking alone: per vote record its weights and the voter's own stake at each
+	// bonded validator; per bonded validator the operator's weights and bonded tokens minus the
+	// stake of its delegators that have a vote record (empty or not)
+	ghVoters, ghVals string
+	ghH              []string
+	emptyOverrides   bool // a delegator with an EMPTY vote record sits on a validator whose operator voted
 }
 
 func (w *world) graph(ctx sdk.Context) graphObs {
@@ -392,6 +398,70 @@ func (w *world) graph(ctx sdk.Context) graphObs {
 			g.valAndDelegator = true
 		}
 	}
+	// ---- ghosts ----
+	overridden := map[string]sdkmath.LegacyDec{}
+	emptyOn := map[string]bool{}
+	opWeights := map[string]string{}
+	var gv []string
+	for _, vote := range votes {
+		voter := sdk.MustAccAddressFromBech32(vote.Sender)
+		var ws []string
+		for _, pw := range vote.PoolWeights {
+			wd, _ := sdkmath.LegacyNewDecFromStr(pw.Weight)
+			ws = append(ws, pair(fmt.Sprint(pw.PoolId), emit.Z(raw(wd))))
+		}
+		valStr, _ := sk.ValidatorAddressCodec().BytesToString(voter)
+		if bondedSet[valStr] {
+			opWeights[valStr] = emit.List(ws)
+		}
+		var stakes []string
+		ds, err := sk.GetDelegatorDelegations(ctx, voter, 1000)
+		if err != nil {
+			panic(err)
+		}
+		for _, d := range ds {
+			if !bondedSet[d.ValidatorAddress] {
+				continue
+			}
+			vb, _ := sk.ValidatorAddressCodec().StringToBytes(d.ValidatorAddress)
+			val, err := sk.GetValidator(ctx, vb)
+			if err != nil {
+				panic(err)
+			}
+			own := val.TokensFromShares(d.Shares) // staking's own valuation of the delegation
+			stakes = append(stakes, emit.Z(raw(own)))
+			if cur, ok := overridden[d.ValidatorAddress]; ok {
+				overridden[d.ValidatorAddress] = cur.Add(own)
+			} else {
+				overridden[d.ValidatorAddress] = own
+			}
+			if len(vote.PoolWeights) == 0 && valStr != d.ValidatorAddress {
+				emptyOn[d.ValidatorAddress] = true
+			}
+			g.ghH = append(g.ghH, fmt.Sprintf("voter %d owns %s at %s", w.id(voter), own, d.ValidatorAddress))
+		}
+		gv = append(gv, pair(emit.List(ws), emit.List(stakes)))
+	}
+	var gvals []string
+	if err := sk.IterateBondedValidatorsByPower(ctx, func(_ int64, v sdk.ValidatorI) bool {
+		rem := sdkmath.LegacyNewDecFromInt(v.GetBondedTokens())
+		if o, ok := overridden[v.GetOperator()]; ok {
+			rem = rem.Sub(o)
+		}
+		wts, ok := opWeights[v.GetOperator()]
+		if !ok {
+			wts = "[]"
+		}
+		gvals = append(gvals, pair(wts, emit.Z(raw(rem))))
+		g.ghH = append(g.ghH, fmt.Sprintf("validator %s votes with %s of %s", v.GetOperator(), rem, v.GetBondedTokens()))
+		if emptyOn[v.GetOperator()] && votedVals[v.GetOperator()] {
+			g.emptyOverrides = true
+		}
+		return false
+	}); err != nil {
+		panic(err)
+	}
+	g.ghVoters, g.ghVals = emit.List(gv), emit.List(gvals)
 	for _, n := range poolSeen {
 		if n > 1 {
 			g.overlap = true
@@ -600,7 +670,12 @@ func (w *world) tallyCase(tag string) caseOut {
 		info["result"] = hs
 	}()
 	c := caseOut{kind: "tally", outcome: outcome, info: info}
-	c.term = fmt.Sprintf("CTally {| tc_vals := %s; tc_ballots := %s; tc_bonded := %s; tc_obs := %s |}", g.vals, g.ballots, emit.Z(g.bonded.BigInt()), obs)
+	c.term = fmt.Sprintf("CTally {| tc_vals := %s; tc_ballots := %s; tc_bonded := %s; tc_gh_voters := %s; tc_gh_vals := %s; tc_obs := %s |}",
+		g.vals, g.ballots, emit.Z(g.bonded.BigInt()), g.ghVoters, g.ghVals, obs)
+	info["ghost_stakes"] = g.ghH
+	if g.emptyOverrides {
+		w.st.Count("tally:empty-vote-overrides-voting-validator")
+	}
 	if g.valAndDelegator {
 		w.st.Count("tally:validator-and-own-delegator-voted")
 		c.nontriv = fmt.Sprintf("tally/%d/%d/%v/%v/%s", g.nvotes, g.ndelegVote, g.overlap, g.partial, g.bonded)
@@ -763,8 +838,12 @@ func (w *world) blockCase(dt time.Duration, tag string) caseOut {
 		info["votes"] = g.ballotsH
 	}
 	c := caseOut{kind: "block", outcome: outcome, info: info}
-	c.term = fmt.Sprintf("CBlock {| kc_pre := %s; kc_balance := %s; kc_status := %s; kc_height := %d; kc_epoch_blocks := %d; kc_vals := %s; kc_ballots := %s; kc_bonded := %s; kc_obs := %s |}",
-		preT, emit.Z(balance.BigInt()), statusT, height, params.EpochBlocks, g.vals, g.ballots, emit.Z(g.bonded.BigInt()), obs)
+	c.term = fmt.Sprintf("CBlock {| kc_pre := %s; kc_balance := %s; kc_status := %s; kc_height := %d; kc_epoch_blocks := %d; kc_vals := %s; kc_ballots := %s; kc_bonded := %s; kc_gh_voters := %s; kc_gh_vals := %s; kc_obs := %s |}",
+		preT, emit.Z(balance.BigInt()), statusT, height, params.EpochBlocks, g.vals, g.ballots, emit.Z(g.bonded.BigInt()), g.ghVoters, g.ghVals, obs)
+	info["ghost_stakes"] = g.ghH
+	if g.emptyOverrides {
+		w.st.Count("block:empty-vote-overrides-voting-validator")
+	}
 	created := len(es2) > 0 && (len(es) == 0 || es2[len(es2)-1].Id != es[len(es)-1].Id)
 	if created {
 		w.st.Count("block:epoch-created")
